@@ -361,7 +361,8 @@ fn c06_one(ctx: &Ctx, m: usize, k: u64, frag: &mut Frag) {
                                     let a2 = format!("{}: {} ", f.name, t);
                                     let a3 = format!("{}: Some({})", f.name, t);
                                     let a4 = format!("{}: {}\n", f.name, t);
-                                    if !(dbg.contains(&a1) || dbg.contains(&a2) || dbg.contains(&a3) || dbg.contains(&a4)) {
+                                    // (a wrapper type's Debug is the bare value)
+                                    if !(dbg.contains(&a1) || dbg.contains(&a2) || dbg.contains(&a3) || dbg.contains(&a4) || dbg == t) {
                                         frag.violation(&format!("c06|typed-value|{}.singular", ty.name()), &format!("{}: field {} ({}) was sent as {} but the decoded message shows {}", mname(m), f.name, ty.name(), t, trunc(&dbg)), case());
                                     }
                                 }
@@ -721,13 +722,17 @@ fn nested(s: &PSchema, depth: usize, how: u8) -> Vec<u8> {
 }
 
 fn unknown_groups(depth: usize) -> Vec<u8> {
-    // unknown field 4999 as a group nested `depth` levels
-    let mut inner: Vec<u8> = vec![];
+    groups(depth, 4999, &[])
+}
+
+/// field `num` as a group nested `depth` levels around `innermost`
+fn groups(depth: usize, num: u64, innermost: &[u8]) -> Vec<u8> {
+    let mut inner: Vec<u8> = innermost.to_vec();
     for _ in 0..depth {
         let mut outer = vec![];
-        refmodel::pb::put_varint(&mut outer, (4999u64 << 3) | 3);
+        refmodel::pb::put_varint(&mut outer, (num << 3) | 3);
         outer.extend_from_slice(&inner);
-        refmodel::pb::put_varint(&mut outer, (4999u64 << 3) | 4);
+        refmodel::pb::put_varint(&mut outer, (num << 3) | 4);
         inner = outer;
     }
     inner
@@ -742,10 +747,15 @@ fn c10_one(ctx: &Ctx, m: usize, k: u64, frag: &mut Frag) {
     // depth probes on the recursive message (first case of that message only)
     if m == c.schema.recursive_msg() && k == 0 {
         for depth in (1..=300usize).filter(|d| *d <= 110 || d % 10 == 0) {
-            for how in 0..4u8 {
+            for how in 0..5u8 {
                 ord += 1;
-                let b = if how < 3 { nested(&c.schema, depth, how) } else { unknown_groups(depth) };
-                let hname = ["singular-message", "repeated-message", "map-value", "unknown-group"][how as usize];
+                // field 6 of R9: unknown to the generated R9 (skipped), a known group of the hand-written one
+                let b = match how {
+                    0..=2 => nested(&c.schema, depth, how),
+                    3 => unknown_groups(depth),
+                    _ => groups(depth - 1, 6, &[0x20, 0x07]),
+                };
+                let hname = ["singular-message", "repeated-message", "map-value", "unknown-group", "group-field-6"][how as usize];
                 if !sub_mark_n(ord, &format!("c10 depth kind={} depth={}", hname, depth)) {
                     continue;
                 }
@@ -964,6 +974,12 @@ impl Check for C19p {
 
 pub fn pmain(registry: Vec<PTypeOps>, seed: u64, proto3: bool, config: &str, corpus: &str) {
     let schema = refmodel::pb::generate(seed, proto3, 4);
+    pmain_schema(registry, schema, config, corpus)
+}
+
+/// the same checks over message implementations that come with their own schema
+/// (the hand-written ones of the `pbrt` crate)
+pub fn pmain_schema(registry: Vec<PTypeOps>, schema: PSchema, config: &str, corpus: &str) {
     assert_eq!(schema.msgs.len(), registry.len(), "registry and schema disagree");
     let _ = PCASE.set(PCase { schema, ops: registry, config: config.to_string(), corpus: corpus.to_string(), encdef: config.contains("encdef") });
     let checks: Vec<&dyn Check> = vec![&C05, &C06, &C10, &C18, &C19p];
